@@ -1,6 +1,14 @@
 use std::ops::{Deref, DerefMut};
+#[cfg(not(rten_verif_loom))]
 use std::sync::Mutex;
+#[cfg(not(rten_verif_loom))]
 use std::sync::atomic::{AtomicUsize, Ordering};
+
+// Verification hook: model-check the pool's synchronization with loom.
+#[cfg(rten_verif_loom)]
+use loom::sync::Mutex;
+#[cfg(rten_verif_loom)]
+use loom::sync::atomic::{AtomicUsize, Ordering};
 
 use rten_gemm::{PackedAMatrix, PackedBMatrix};
 use rten_tensor::storage::{Alloc, CowData};
